@@ -133,6 +133,30 @@ SCC_ROLL = """Scenarist_SCC V1.0
 
 00:00:07:00\t94ad 94ad
 """
+DFXP_FR25 = """<?xml version="1.0" encoding="utf-8"?>
+<tt xml:lang="en" xmlns="http://www.w3.org/ns/ttml" xmlns:ttp="http://www.w3.org/ns/ttml#parameter" ttp:frameRate="25">
+ <body>
+  <div xml:lang="en-US">
+   <p begin="00:00:01:10" end="00:00:02:20">twenty-five</p>
+   <p begin="75f" end="100f">frames</p>
+  </div>
+ </body>
+</tt>
+"""
+SCC_MIDPUNCT = """Scenarist_SCC V1.0
+
+00:00:01:00\t94ae 9420 9470 c8e5 ecec ef80 9120 ae80 942f
+
+00:00:03:00\t942c
+
+00:00:05:00\t94ae 9420 9470 c8e5 ecec ef80 91ae a180 942f
+
+00:00:07:00\t942c
+
+00:00:09:00\t94ae 9420 9470 c8e5 ecec ef80 9120 2c80 942f
+
+00:00:11:00\t942c
+"""
 DFXP_NONE = """<?xml version="1.0" encoding="utf-8"?>
 <tt xml:lang="en" xmlns="http://www.w3.org/ns/ttml"><body><div xml:lang="en-US"></div></body></tt>
 """
@@ -209,7 +233,7 @@ SRT_NONE = "1\n"
 
 def docs():
     return {
-        "scc_roll": ("SCC", SCC_ROLL), "scc_long": ("SCC", SCC_LONG), "scc_left": ("SCC", SCC_LEFT), "scc_badtc": ("SCC", SCC_BADTC),
+        "scc_roll": ("SCC", SCC_ROLL), "scc_midpunct": ("SCC", SCC_MIDPUNCT), "dfxp_fr25": ("DFXP", DFXP_FR25), "scc_long": ("SCC", SCC_LONG), "scc_left": ("SCC", SCC_LEFT), "scc_badtc": ("SCC", SCC_BADTC),
         "dfxp_none": ("DFXP", DFXP_NONE), "dfxp_ta": ("DFXP", DFXP_TA), "sami_ta": ("SAMI", SAMI_TA),
         "vtt_bad": ("WebVTT", VTT_BAD), "srt_none": ("SRT", SRT_NONE), "dfxp_sloppy": ("DFXP", DFXP_SLOPPY), "dfxp_plang": ("DFXP", DFXP_PLANG),
         "srt1": ("SRT", _head(_ex("example.srt"), "\n\n", 8)), "srt2": ("SRT", SRT2),
